@@ -85,6 +85,19 @@ pub fn generate_format(name: &str, count: usize, rng: &mut Rng, out: &mut dyn Wr
                 i += step;
             }
         }
+        // well-known addresses and ports in both roles
+        "fmtknown" => {
+            use crate::util::{KNOWN_PORTS, KNOWN_V4, KNOWN_V6};
+            for i in 0..count {
+                let (sp, dp) = (KNOWN_PORTS[i % 14], KNOWN_PORTS[(i / 14 + 3) % 14]);
+                let a = if i % 2 == 0 {
+                    v1::Addresses::new_tcp4(KNOWN_V4[i / 2 % 24], KNOWN_V4[(i / 2 * 7 + 5) % 24], sp, dp)
+                } else {
+                    v1::Addresses::new_tcp6(Ipv6Addr::from(KNOWN_V6[i / 2 % 18]), Ipv6Addr::from(KNOWN_V6[(i / 2 * 5 + 7) % 18]), sp, dp)
+                };
+                n += run_format(&format!("fmtknown-{}", i), &a, out);
+            }
+        }
         "fmtrand" => {
             n += run_format("fmtrand-unknown", &v1::Addresses::Unknown, out);
             for i in 0..count {
@@ -207,7 +220,22 @@ pub fn generate_convert(name: &str, count: usize, rng: &mut Rng, out: &mut dyn W
                         _ => {}
                     }
                 }
-                let (sp, dp) = (rng.next() as u16, rng.next() as u16);
+                let (mut sp, mut dp) = (rng.next() as u16, rng.next() as u16);
+                if rng.chance(1, 3) {
+                    // well-known addresses and ports (one per special range) in both roles
+                    use crate::util::{KNOWN_PORTS, KNOWN_V4, KNOWN_V6};
+                    if rng.chance(1, 2) {
+                        let (x, y) = (KNOWN_V4[rng.below(24) as usize], KNOWN_V4[rng.below(24) as usize]);
+                        b[0..4].copy_from_slice(&x);
+                        b[4..8].copy_from_slice(&y);
+                        b[16..20].copy_from_slice(&y);
+                    } else {
+                        let (x, y) = (KNOWN_V6[rng.below(18) as usize], KNOWN_V6[rng.below(18) as usize]);
+                        for k in 0..8 { b[2 * k..2 * k + 2].copy_from_slice(&x[k].to_be_bytes()); b[16 + 2 * k..18 + 2 * k].copy_from_slice(&y[k].to_be_bytes()); }
+                    }
+                    sp = KNOWN_PORTS[rng.below(14) as usize];
+                    dp = KNOWN_PORTS[rng.below(14) as usize];
+                }
                 let args4 = json!({"sa": flat(&b[0..4]), "da": flat(&b[4..8]), "sp": sp, "dp": dp});
                 let args6 = json!({"sa": flat(&b[0..16]), "da": flat(&b[16..32]), "sp": sp, "dp": dp});
                 let ev = match i % 11 {
